@@ -226,6 +226,14 @@ def gen_wav(r, nh, dyadic=False, sym=False):
     return [float(t) for t in w]
 
 
+def gen_profile(r, nt0):
+    """time-VARYING vsvp profile (dyadic values), never constant"""
+    while True:
+        v = [0.5 + r.randint(-3, 3) / 16.0 for _ in range(nt0)]
+        if len(set(v)) >= min(3, nt0):
+            return v
+
+
 SPATS = [None, [2], [2, 2]]
 
 
@@ -255,7 +263,22 @@ def gen_cases(tier):
         nt0 = r.choice([5, 6, 7]) if sp is None else r.choice([5, 6])
         if r.random() < 0.08:
             nh, nt0 = 6, 5        # long wavelet (known finding K1)
-        vsvp = [0.5 + r.randint(-3, 3) / 16.0 for _ in range(nt0)] if prof else r.choice([0.5, 0.4375, 0.625])
+        vsvp = gen_profile(r, nt0) if prof else r.choice([0.5, 0.4375, 0.625])
+        cases.append(("pre", {"wav": gen_wav(r, nh), "theta": sorted(r.sample(thetas, nth)), "vsvp": vsvp, "nt0": nt0,
+                              "spatdims": sp, "lin": lin, "kind": kind}))
+    # square (nt0 == ntheta) and nt0 < ntheta sizes: a coefficient table used with the wrong orientation is only
+    # visible here (and only with a time-varying vsvp profile / several angles)
+    r = common.rng(PID, "pre-square")
+    shapes = [(3, 3), (4, 4), (5, 5), (3, 4), (4, 5), (3, 5)]
+    if tier == "quick":
+        sq = [(sh, lin, ("centered", "forward")[(i + j) % 2], (None, [2])[(i + j // 2) % 2], not (i == 5 and j == 0))
+              for i, sh in enumerate(shapes) for j, lin in enumerate(("akirich", "fatti", "ps"))]
+    else:
+        sq = [(sh, lin, kind, sp, prof) for sh in shapes for lin in ("akirich", "fatti", "ps") for kind in ("centered", "forward")
+              for sp in (None, [2]) for prof in (True, False)]
+    for ((nt0, nth), lin, kind, sp, prof) in sq:
+        nh = r.randint(3, nt0)
+        vsvp = gen_profile(r, nt0) if prof else r.choice([0.5, 0.4375, 0.625])
         cases.append(("pre", {"wav": gen_wav(r, nh), "theta": sorted(r.sample(thetas, nth)), "vsvp": vsvp, "nt0": nt0,
                               "spatdims": sp, "lin": lin, "kind": kind}))
     r = common.rng(PID, "mdc")
